@@ -12,6 +12,7 @@ CONSTANTS Comp = "pairs"
   NBuf = 2
   Gaps <- G_none
   Strict = TRUE
+  Busy = FALSE
   D = 3
 INIT Init
 NEXT Next
